@@ -191,13 +191,23 @@ def _free_flags(arm):
     return sorted(names - {"type", "in_cdata", "token", "self", "escape", "True", "False", "None"})
 
 
+def _type_test_values(test):
+    """the set of token types a test `type == X` / `type in (...)` / `type == X or type == Y` accepts, else None"""
+    from ..repo import membership_test
+    def ev(n):
+        return n.value if isinstance(n, ast.Constant) else tuple(e.value for e in n.elts) if isinstance(n, (ast.Tuple, ast.List, ast.Set)) and \
+            all(isinstance(e, ast.Constant) for e in n.elts) else None
+    mt = membership_test(test, ev)
+    if mt is not None and mt[0] == "type":
+        return set(mt[1])
+    return None
+
+
 def _text_arm(f):
     """the `elif type in ("Characters", "SpaceCharacters")` arm of the token loop"""
     for n in ast.walk(f.node):
-        if isinstance(n, ast.If) and isinstance(n.test, ast.Compare) and norm(n.test.left) == "type":
-            consts = {c.value for c in ast.walk(n.test.comparators[0]) if isinstance(c, ast.Constant)}
-            if consts == {"Characters", "SpaceCharacters"}:
-                return n
+        if isinstance(n, ast.If) and _type_test_values(n.test) == {"Characters", "SpaceCharacters"}:
+            return n
     return None
 
 
@@ -378,8 +388,7 @@ def cr_and_leading_lf(ctx):
                 "an attribute value is written without replacing U+000D by a character reference: `<p title=\"a&#13;b\">` is written with a raw "
                 "CR, which the input stream of the parser reading it turns into U+000A", detail={"on_every_path": not bad})
     # S11: evaluate the arm for the first text token after a start tag of pre / textarea / listing / div
-    starts = [n for n in ast.walk(f.node) if isinstance(n, ast.If) and isinstance(n.test, ast.Compare) and norm(n.test.left) == "type" and
-              {c.value for c in ast.walk(n.test.comparators[0]) if isinstance(c, ast.Constant)} == {"StartTag", "EmptyTag"}]
+    starts = [n for n in ast.walk(f.node) if isinstance(n, ast.If) and _type_test_values(n.test) == {"StartTag", "EmptyTag"}]
     flags = _free_flags(arm)
     # a flag the start-tag arm sets from the element name and the text arm reads
     setters = {}
@@ -638,8 +647,7 @@ def doctype_evaluated(ctx):
     r = ctx.r
     ce = ctx.ce
     f, cfg = serialize_cfg(ctx)
-    arm = next((n for n in ast.walk(f.node) if isinstance(n, ast.If) and isinstance(n.test, ast.Compare) and norm(n.test.left) == "type" and
-                {c.value for c in ast.walk(n.test.comparators[0]) if isinstance(c, ast.Constant)} == {"Doctype"}), None)
+    arm = next((n for n in ast.walk(f.node) if isinstance(n, ast.If) and _type_test_values(n.test) == {"Doctype"}), None)
     if arm is None:
         r.idiom("S8", False, "doctype-ids-read-back", f.where, "serialize: the arm for doctype tokens was not found")
         return
